@@ -232,8 +232,10 @@ func (l *Loader) updates() {
 		select {
 		case c := <-l.Config():
 			providers = l.build(c)
+			vhook("l.build", l)
 			l.Infof(l.ctx, "updated all providers from config source")
 			prefixDeny, prefixAllow = l.createPrefixFilters(c)
+			vhook("l.filters", l)
 			l.Infof(l.ctx, "updated all prefix filters, where available, from config source")
 			buildUpdate.Inc()
 			// notify that we are warmed, but one time only
@@ -242,16 +244,19 @@ func (l *Loader) updates() {
 			go func() {
 				// prefixFilter will log to prom counters and also act as a quick fail for prefixes that do not pass
 				// muster.  this pevents unnecessary load on scanning SecretProviders
+				vhook("l.q1", l, q.remote)
 				if prefixDeny.deny(q.remote) {
 					q.cb <- secretProvider{err: fmt.Errorf("remote address connection not allowed by prefixDeny filter [%v]", q.remote.String())}
 					close(q.cb)
 					return
 				}
+				vhook("l.q2", l, q.remote)
 				if !prefixAllow.allow(q.remote) {
 					q.cb <- secretProvider{err: fmt.Errorf("remote address connection not allowed by prefixAllow filter [%v]", q.remote.String())}
 					close(q.cb)
 					return
 				}
+				vhook("l.q3", l, q.remote)
 				secret, handler, err := l.get(q.ctx, providers, q.remote)
 				q.cb <- secretProvider{secret: secret, handler: handler, err: err}
 				close(q.cb)
